@@ -132,7 +132,7 @@ CHECKS = {
     "C17": dict(
         text="Static: every path of the real HSTRP and RRS datagram_received (18 + 65 paths) is enumerated by abstract interpretation with the decoder replaced by 'raises (one path per exception family: AssertionError, ValueError, KeyError, IndexError) | None | HSTRP with symbolic type bits, S/N, payload kind' "
              "and the transport as an effect-recording stub; hstrp_send_ack/heartbeat/rrs_confirm/deepcopy/as_bytes are interpreted for real, so each answer's bytes are bit forms over the request's atoms. Rules over (fixed type bits, effects, final state): "
-             "never raises, acks never answered, exactly one ack with the request's S/N and no payload, heartbeat echo only while connected, connected flag (in the HSTRP layer and in the RRS layer, whatever the payload), registry updates, one bounded-S/N confirm per registration. Interval rule: every method that assigns the handler's own sequence number maps the invariant [0,0xFFFF] at its entry to the same invariant at each exit (interprocedural interval flow with refinement; no 2-octet overflow after any history length). Handler attributes other than the modelled ones that some method assigns and reads are arbitrary (symbolic) at the entry of the analysed step.",
+             "never raises, acks never answered, exactly one ack with the request's S/N and no payload, heartbeat echo only while connected, connected flag (in the HSTRP layer and in the RRS layer, whatever the payload), registry updates, one bounded-S/N confirm per registration. Interval rule: every method that assigns the handler's own sequence number maps the invariant [0,0xFFFF] at its entry to the same invariant at each exit (interprocedural interval flow with refinement; no 2-octet overflow after any history length). Handler attributes other than the modelled ones that some method assigns and reads are arbitrary (symbolic) at the entry of the analysed step. Where a handler logs repr() of a received packet, every reachable __repr__ / __str__ must be total (no strict decoding of received octets).",
         technique="path enumeration by abstract interpretation with symbolic booleans (trace partitioning), effect sequences per path; interval analysis of the sequence counter",
         note="trusted: the decoder abstraction (any datagram either is rejected or yields an HSTRP object); 'never raises' is decided for the handler paths under that abstraction, not for the byte-level decoder",
         ref="DESIGN.md §3 C17"),
